@@ -25,8 +25,9 @@ structure AgreeR (r s : Run) : Prop where
 theorem check_agree (a b : Inst) (p : Nat) (h : AgreeI a b) :
     (∀ e, checkLenOrResize a p = .error e → checkLenOrResize b p = .error e) ∧
     (∀ a', checkLenOrResize a p = .ok a' → ∃ b', checkLenOrResize b p = .ok b' ∧ AgreeI a' b') := by
+  have hg : growBytes a p = growBytes b p := by unfold growBytes; rw [h.bufLen]
   unfold checkLenOrResize
-  rw [h.bufLen, h.external]
+  rw [hg, h.bufLen, h.external]
   constructor
   · intro e he
     split at he
